@@ -7,12 +7,14 @@ import subprocess
 def ensure(root):
     d = os.path.join(root, "certs")
     need = ["ca.crt", "leaf.crt", "leaf.key"]
-    if all(os.path.exists(os.path.join(d, n)) for n in need):
-        return d
     os.makedirs(d, exist_ok=True)
 
     def run(*a):
         subprocess.run(a, cwd=d, check=True, stdout=subprocess.DEVNULL, stderr=subprocess.DEVNULL)
+
+    if all(os.path.exists(os.path.join(d, n)) for n in need):
+        impostors(d, run)
+        return d
 
     run("openssl", "ecparam", "-name", "prime256v1", "-genkey", "-noout", "-out", "ca.key")
     run("openssl", "req", "-x509", "-new", "-key", "ca.key", "-sha256", "-days", "3650", "-subj", "/CN=osv test ca",
@@ -24,7 +26,40 @@ def ensure(root):
         f.write("basicConstraints=critical,CA:FALSE\nkeyUsage=critical,digitalSignature\nextendedKeyUsage=serverAuth\nsubjectAltName=DNS:localhost,IP:127.0.0.1\n")
     run("openssl", "x509", "-req", "-in", "leaf.csr", "-CA", "ca.crt", "-CAkey", "ca.key", "-CAcreateserial", "-days", "3650", "-sha256",
         "-extfile", "leaf.ext", "-out", "leaf.crt")
+    impostors(d, run)
     return d
+
+
+def impostors(d, run):
+    """Identities of servers the client must NOT accept (C05 impostor step): a self-signed certificate for localhost, a
+    leaf for localhost under an unrelated CA, and a leaf under the RIGHT CA for another name."""
+    need = ["self.crt", "self.key", "rogue-ca.crt", "rogue-leaf.crt", "rogue-leaf.key", "othername.crt", "othername.key"]
+    if all(os.path.exists(os.path.join(d, n)) for n in need):
+        return
+    ext = "basicConstraints=critical,CA:FALSE\nkeyUsage=critical,digitalSignature\nextendedKeyUsage=serverAuth\nsubjectAltName=%s\n"
+
+    def key(name):
+        run("openssl", "ecparam", "-name", "prime256v1", "-genkey", "-noout", "-out", name + ".ec.key")
+        run("openssl", "pkcs8", "-topk8", "-nocrypt", "-in", name + ".ec.key", "-out", name + ".key")
+
+    key("self")
+    run("openssl", "req", "-x509", "-new", "-key", "self.key", "-sha256", "-days", "3650", "-subj", "/CN=localhost",
+        "-addext", "subjectAltName=DNS:localhost,IP:127.0.0.1", "-addext", "basicConstraints=critical,CA:FALSE", "-out", "self.crt")
+    run("openssl", "ecparam", "-name", "prime256v1", "-genkey", "-noout", "-out", "rogue-ca.key")
+    run("openssl", "req", "-x509", "-new", "-key", "rogue-ca.key", "-sha256", "-days", "3650", "-subj", "/CN=osv test ca",
+        "-addext", "basicConstraints=critical,CA:TRUE", "-addext", "keyUsage=critical,keyCertSign,cRLSign", "-out", "rogue-ca.crt")
+    key("rogue-leaf")
+    run("openssl", "req", "-new", "-key", "rogue-leaf.key", "-subj", "/CN=localhost", "-out", "rogue-leaf.csr")
+    with open(os.path.join(d, "rogue-leaf.ext"), "w") as f:
+        f.write(ext % "DNS:localhost,IP:127.0.0.1")
+    run("openssl", "x509", "-req", "-in", "rogue-leaf.csr", "-CA", "rogue-ca.crt", "-CAkey", "rogue-ca.key", "-CAcreateserial", "-days", "3650", "-sha256",
+        "-extfile", "rogue-leaf.ext", "-out", "rogue-leaf.crt")
+    key("othername")
+    run("openssl", "req", "-new", "-key", "othername.key", "-subj", "/CN=other.example", "-out", "othername.csr")
+    with open(os.path.join(d, "othername.ext"), "w") as f:
+        f.write(ext % "DNS:other.example")
+    run("openssl", "x509", "-req", "-in", "othername.csr", "-CA", "ca.crt", "-CAkey", "ca.key", "-CAcreateserial", "-days", "3650", "-sha256",
+        "-extfile", "othername.ext", "-out", "othername.crt")
 
 
 if __name__ == "__main__":
